@@ -90,7 +90,12 @@ def h2_history(draw: Any) -> Dict[str, Any]:
     steps = []
     for _ in range(draw(st.integers(1, 5))):
         kind = draw(st.sampled_from(["stream", "stream", "pause", "pause", "two_streams",
-                                     "terminated", "peer_loss"]))
+                                     "terminated", "peer_loss", "rejected"]))
+        if kind == "rejected":
+            # a request the server answers itself (no application): idle again from then on
+            steps.append({"op": "rejected",
+                          "what": draw(st.sampled_from(["server_name", "ws_no_version"]))})
+            continue
         if kind == "stream":
             steps.append({"op": "stream", "delay": draw(st.sampled_from([0.0, T / 2, 3 * T,
                                                                           1000 * T])),
@@ -112,7 +117,7 @@ def h2_history(draw: Any) -> Dict[str, Any]:
     return {"proto": "h2", "T": T, "steps": steps, "sched": draw(st.integers(0, 999)),
             # how the connection became HTTP/2: TLS + ALPN, cleartext prior knowledge (the
             # preface arrives on what starts as an HTTP/1 connection) or the h2c upgrade
-            "opening": draw(st.sampled_from(["alpn", "alpn", "prior", "h2c"]))}
+            "opening": draw(st.sampled_from(["alpn", "alpn", "prior", "h2c", "h2c_unknown_host"]))}
 
 
 @st.composite
@@ -375,10 +380,12 @@ async def run_h2(env: Any, case: Dict[str, Any], app: Any) -> Dict[str, Any]:
     opening = case.get("opening", "alpn")
     conn = env.connect(alpn="h2", tls=True) if opening == "alpn" else env.connect()
     client = H2Client(conn)
-    if opening == "h2c":
+    if opening in ("h2c", "h2c_unknown_host"):
+        # (with an unknown host the upgraded request is answered 404 by the server itself)
+        host = b"x" if opening == "h2c" else b"unknown.invalid"
         app.programs["/up"] = [["recv_all"], ["respond", 200, [["content-length", "2"]], ["ok"]]]
         payload = client.h2.initiate_upgrade_connection()
-        conn.send(b"GET /up HTTP/1.1\r\nHost: x\r\nConnection: Upgrade, HTTP2-Settings\r\n"
+        conn.send(b"GET /up HTTP/1.1\r\nHost: " + host + b"\r\nConnection: Upgrade, HTTP2-Settings\r\n"
                   b"Upgrade: h2c\r\nHTTP2-Settings: " + payload + b"\r\n\r\n")
         await env.settle0()
         rx = conn.received()
@@ -423,6 +430,27 @@ async def run_h2(env: Any, case: Dict[str, Any], app: Any) -> Dict[str, Any]:
             await env.set_terminated()
             tm.terminated_at = env.now()
             await env.settle0()
+        elif op == "rejected":
+            if tm.terminated_at is not None:
+                continue
+            t0 = env.now()
+            try:
+                if step["what"] == "server_name":
+                    client.request([(b":method", b"GET"), (b":scheme", b"https"),
+                                    (b":authority", b"unknown.invalid"), (b":path", b"/x")],
+                                   end_stream=True)
+                else:
+                    client.request([(b":method", b"CONNECT"), (b":protocol", b"websocket"),
+                                    (b":scheme", b"https"), (b":authority", b"x"),
+                                    (b":path", b"/ws")], end_stream=False)
+            except Exception as e:
+                raise Violation("client_refused", repr(e), backend=env.backend)
+            nontrivial = True
+            await env.settle0()
+            client.pump()
+            await env.settle0()
+            tm.idle(t0)
+            tm.notes.append(f"rejected request ({step['what']}) at {t0}")
         elif op in ("stream", "two_streams"):
             if tm.terminated_at is not None:
                 continue
@@ -561,6 +589,8 @@ def run_case(case: Dict[str, Any]) -> CaseInfo:
     case = dict(case)
     cfg = {"keep_alive_timeout": case["T"], "server_names": []}
     if any(s.get("what") == "server_name" for s in case.get("steps", [])):
+        cfg["server_names"] = ["example.com", "x"]
+    if case.get("opening") == "h2c_unknown_host":
         cfg["server_names"] = ["example.com", "x"]
     nontrivial = False
     for be in BACKENDS:
